@@ -402,6 +402,7 @@ impl<'a> FieldInfo<'a> {
 
     /// Extract the serialized name from field attributes or use the field name.
     fn get_serialized_name(field: &syn::Field, default_name: &syn::Ident) -> String {
-        parse_zlink_string_attr(&field.attrs, "rename").unwrap_or_else(|| default_name.to_string())
+        parse_zlink_string_attr(&field.attrs, "rename")
+            .unwrap_or_else(|| syn::ext::IdentExt::unraw(default_name).to_string())
     }
 }
